@@ -284,3 +284,10 @@ def asmdec_query(variant, n, pad, avail_out, valid_only, core=False, witness=Fal
         p["mem_gb"] = mem_gb
     fam = "asm_%s_%s" % (variant, "valid" if valid_only else "arbitrary")
     return Query("%s/n%d_pad%d_ao%d" % (fam, n, pad, avail_out), R, p, core=core, family=fam, weight=40 * 4 ** n)
+
+
+def pregen_query(ril, core=False, witness=False):
+    """C06/C02: header_matches_pregen answers yes exactly for a bit-exact copy of the default dynamic header."""
+    p = dict(harness="harness/C06/h_pregen.c", units=["igzip/hufftables_c.c"], defines=FAST, hdefines=["RIL=%d" % ril],
+             unwind=9, unwindset=["harness.0:1000", "harness.1:1000", "harness.2:1000", "memcmp.0:200", "inflate_in_load.0:9"], witness=witness)
+    return Query("pregen_header/ril%d" % ril, R, p, core=core, family="pregen_header", weight=3)
